@@ -265,10 +265,31 @@ static enum eventloop_return accept_common(struct io_event *ev, void (*peer_func
 		socklen_t addrlen = sizeof(addr);
 		int peer_fd = accept(ev->sock, (struct sockaddr *)&addr, &addrlen);
 		if (peer_fd == -1) {
-			if ((errno == EAGAIN) || (errno == EWOULDBLOCK)) {
-				return EL_CONTINUE_LOOP;
-			} else {
+			switch (errno) {
+			case EBADF:
+			case EINVAL:
+			case ENOTSOCK:
+			case EOPNOTSUPP:
+			case EFAULT:
+				/* The listening socket itself is unusable. */
 				return EL_ABORT_LOOP;
+
+			case ECONNABORTED:
+			case EINTR:
+			case EPROTO:
+				/* This connection attempt is gone, look for the next one. */
+				continue;
+
+			default:
+				/*
+				 * EAGAIN or a lack of resources (EMFILE, ENFILE,
+				 * ENOBUFS, ENOMEM, ...). Neither is a reason to
+				 * stop serving the established connections.
+				 */
+				if ((errno != EAGAIN) && (errno != EWOULDBLOCK)) {
+					log_err("accept failed: '%s'\n", strerror(errno));
+				}
+				return EL_CONTINUE_LOOP;
 			}
 		} else {
 			if (likely(peer_function != NULL)) {
